@@ -25,7 +25,7 @@ def run(tier):
     gens = c01.mc_local(v, tier, PID)
     scs = rc.model_local_scenarios(gens)
     rc.run_scenarios(v, PID, wd, "gen", scs, chunk=400)
-    scs = rc.alias_scenarios(r_, 400 if tier == "quick" else 10000)
+    scs = rc.alias_scenarios(r_, 400 if tier == "quick" else 4000)
     lines, rejects = rc.run_scenarios(v, PID, wd, "tv", scs)
     errs = {}
     longest = 0
